@@ -192,6 +192,21 @@ class Cnl2asp:
         return signatures
 
 
+def _print_diagnostic(e: Exception, in_file: TextIO, debug: bool):
+    if isinstance(e, UnexpectedCharacters):
+        in_file.seek(0)
+        cnl_input = in_file.read()
+        print(ParserError(e.char, e.line, e.column, e.get_context(cnl_input), cnl_input.splitlines()[e.line - 1],
+                          list(e.allowed)))
+        return
+    if isinstance(e, VisitError):
+        print(e.args[0])
+    else:
+        print("Error in asp conversion:", str(e))
+    if debug:
+        traceback.print_exception(e)
+
+
 def main():
     parser = argparse.ArgumentParser()
     parser.add_argument('-c', '--check-syntax', action='store_true', help='Checks that the input fits the grammar')
@@ -215,31 +230,22 @@ def main():
 
     in_file = open(input_file, 'r')
     cnl2asp = Cnl2asp(in_file, args.debug)
-    if args.check_syntax:
-        if cnl2asp.check_syntax():
-            print("Input file fits the grammar.")
-    elif args.cnl2json:
-        print(json.dumps(cnl2asp.cnl_to_json()))
-    elif args.symbols:
-        print(cnl2asp.get_symbols())
+    if args.check_syntax or args.cnl2json or args.symbols:
+        try:
+            if args.check_syntax:
+                if cnl2asp.check_syntax():
+                    print("Input file fits the grammar.")
+            elif args.cnl2json:
+                print(json.dumps(cnl2asp.cnl_to_json()))
+            else:
+                print(cnl2asp.get_symbols())
+        except Exception as e:
+            _print_diagnostic(e, in_file, args.debug)
     else:
         try:
             asp_encoding = cnl2asp.compile()
-        except UnexpectedCharacters as e:
-            in_file.seek(0)
-            cnl_input = in_file.read()
-            print(ParserError(e.char, e.line, e.column, e.get_context(cnl_input), cnl_input.splitlines()[e.line - 1],
-                              list(e.allowed)))
-            return ''
-        except VisitError as e:
-            print(e.args[0])
-            if args.debug:
-                traceback.print_exception(e)
-            return ''
         except Exception as e:
-            print("Error in asp conversion:", str(e))
-            if args.debug:
-                traceback.print_exception(e)
+            _print_diagnostic(e, in_file, args.debug)
             return ''
 
         if args.optimize:
